@@ -274,8 +274,10 @@ class Gen:
     def dep(self, f, x, et, ty):
         """Make the lambda body `f` (of type ty) mention its own variable x (of element type et):
         bodies that ignore their variable are a listed defect class (value hoisted out of the loop)."""
-        if not self.strict or self.uses(f, x) or not self.has_var(f):
-            return f  # (a constant body is fine; only a body made of OUTER variables is the listed defect)
+        if not self.strict or self.uses(f, x) or (not self.has_var(f) and ty != "bool"):
+            return f  # (a constant projection is fine; only a body made of OUTER variables is the listed defect)
+        # (a PREDICATE always looks at its element: a filter that ignores it lets the generated code skip a faulting
+        # projection in front of it, which the eager reference evaluates — a laziness difference the property leaves open)
         if isinstance(et, tuple):
             leafn = {"k": "meth", "o": {"k": "var", "n": x}, "n": "i" if ty == "int" else self.rng.choice(["i", "d"])}
             leafb = {"k": "meth", "o": {"k": "var", "n": x}, "n": "b"}
